@@ -62,7 +62,7 @@ def fresh(kind, st):
         return M.ChunkBySlices(st["mode"], st["value"])
     if kind == "PadMaskedSequence":
         return M.PadMaskedSequence(st["batch_first"], st["value"])
-    layer = M.RandomShift(1.0, st["mode"], st["value"])
+    layer = M.RandomShift(st.get("prop_arg", 1.0), st["mode"], st["value"])
     layer.train(st["training"])
     return layer
 
@@ -185,7 +185,8 @@ def step_call(kind, module, st, step, k, seed):
                     probs.append(("wrong-row", {"row": n, "expected": erow, "observed": outl[n]}))
                     break
         results = (out, lens)
-    else:  # RandomShift, prop 1.0
+    else:  # RandomShift (prop 1.0 unless the state says otherwise)
+        props = st.get("props", ("1.0", "1.0"))
         lens_l = [max(1, T - n) for n in range(N)]
         lens = torch.tensor(lens_l)
         desc["lens"] = lens_l
@@ -196,7 +197,8 @@ def step_call(kind, module, st, step, k, seed):
                 probs.append(("eval-mode-not-identity", {"out_lens": out_lens.tolist()}))
         else:
             with ScriptedRandom(None, uniform=scripted(k)):
-                fo, fl = F.random_shift(x0.clone(), lens.clone(), (1.0, 1.0), st["mode"], st["value"], True)
+                fo, fl = F.random_shift(x0.clone(), lens.clone(), (float(props[0]), float(props[1])), st["mode"],
+                                        st["value"], True)
             item = O.full(REST, st["value"])
             ol = out_lens.tolist()
             if ol != fl.tolist():
@@ -209,16 +211,23 @@ def step_call(kind, module, st, step, k, seed):
                         probs.append(("differs-from-functional-with-same-draws",
                                       {"row": n, "observed": obs, "functional": fol[n][: ol[n]]}))
                         break
-                    if ol[n] < lens_l[n] or not O.shift_explanations(xl[n][: lens_l[n]], obs, ("1.0", "1.0"),
-                                                                      st["mode"], item):
+                    if ol[n] < lens_l[n] or not O.shift_explanations(xl[n][: lens_l[n]], obs, props, st["mode"], item):
                         probs.append(("not-a-bounded-shift-of-the-input", {"row": n, "observed": obs}))
                         break
         results = (out, out_lens)
     return results, probs, desc
 
 
-def run_history(kind, init, steps, seed):
-    """Runs the steps on one module object; returns [(step index, symptom, detail)]."""
+def is_constant(kind, setop):
+    """mode, value, padding_value and batch_first are listed in the modules' ``__constants__``: reassigning
+    them on a live module is not a supported way to reconfigure it (only train/eval is a live switch)."""
+    return setop in ("mode", "value") or (setop == "toggle" and kind == "PadMaskedSequence")
+
+
+def run_history(kind, init, steps, seed, counts=None):
+    """Runs the steps on one module object; returns [(step index, symptom, detail)].  A step that reassigns
+    one of the module's ``__constants__`` is executed and COUNTED in ``counts`` (honoured / ignored), never
+    judged, and ends the history (the object's configuration is undefined from there on)."""
     st = {"mode": init.get("mode", "constant"), "value": VALUE, "batch_first": init.get("batch_first", False),
           "training": True}
     module = fresh(kind, st)
@@ -226,10 +235,18 @@ def run_history(kind, init, steps, seed):
     problems = []
     for k, step in enumerate(steps):
         apply_set(kind, module, st, step[3])
+        constant = is_constant(kind, step[3])
         try:
             results, probs, desc = step_call(kind, module, st, tuple(step), k, seed)
         except Exception as e:  # every step is a legal call
-            problems.append((k, "raises", {"type": type(e).__name__, "error": str(e)[-300:], "state": dict(st)}))
+            if constant:
+                probs = [("raises", {})]
+            else:
+                problems.append((k, "raises", {"type": type(e).__name__, "error": str(e)[-300:], "state": dict(st)}))
+                break
+        if constant:
+            if counts is not None:
+                counts["constants_reassigned_ignored" if probs else "constants_reassigned_honoured"] += 1
             break
         for sym, det in probs:
             problems.append((k, sym, dict(det, call=desc)))
@@ -264,7 +281,7 @@ def hist_pass(ctx, kind, init, tier, seed, i=0, of=1):
                           if a != b} | {s[3] for s in steps[1:] if s[3]})
         ctx.case(len(steps), 1 if changed or len({s[:3] for s in steps}) > 1 else 0)
         ctx.count("history_calls_on_reused_modules", len(steps))
-        problems = run_history(kind, init, steps, seed)
+        problems = run_history(kind, init, steps, seed, ctx.counters)
         if not problems:
             if n % 37 == 0:
                 ctx.outcome(["hist", kind, init, steps])
